@@ -17,6 +17,7 @@ func TestReplay(t *testing.T) {
 	}
 	c := ev.New("C16", "replay", "exploration")
 	t.Cleanup(c.Flush)
+	t.Cleanup(func() { drainExcluded(c) })
 	c.Case()
 	switch doc.Check {
 	case "seg-2way", "seg-random", "seg-errtail":
